@@ -442,7 +442,8 @@ class Gen:
     rng = self.rng
     d = AbsDoc()
     d.lang = rng.choice(["", "en", "fr-CA"])
-    d.cell = rng.choice([(15, 32), (15, 32), (23, 40), (19, 50)])
+    # (rows, columns): default, both differ, and only one of the two differing from the default 15 x 32
+    d.cell = rng.choice([(15, 32), (15, 32), (23, 40), (19, 50), (15, 40), (24, 32), (15, 33), (1, 32)])
     d.px = rng.choice([(1920, 1080), (1920, 1080), (640, 480), (720, 576)])
     if rng.random() < 0.15:
       d.active_area = rng.choice([(0.1, 0.1, 0.8, 0.8), (0, 0.125, 1, 0.75)])
